@@ -1,9 +1,13 @@
-"""Independent parser for the subset of DOT that graphviz.Digraph emits for a lattice body.
+"""Independent parser for the statement-per-line DOT that graphviz.Digraph emits for a lattice body.
 
-Statements (one per line): ``ID`` (node), ``ID -> ID`` (edge), each optionally followed by
-``[key=value key=value ...]`` where a value is a bare token or a double-quoted string in
-which ``\\"`` stands for ``"`` (every other backslash sequence is kept verbatim).
+Statements (one per line): ``ID`` (node), ``ID -> ID`` (edge), each optionally followed by one or more
+``[key=value key=value ...]`` lists (``,`` / ``;`` separators allowed) and an optional ``;``, where a value is a
+bare token or a double-quoted string in which ``\\"`` stands for ``"`` (every other backslash sequence is kept
+verbatim).  Blank lines and comment lines (``//``, ``#``, one-line ``/* */``) are not statements.  ``node`` /
+``edge`` / ``graph`` default statements are accepted as long as they set nothing the drawing oracle reads.
 """
+
+ORACLE_KEYS = ('label', 'headlabel', 'taillabel', 'xlabel', 'dir', 'style', 'color')
 
 
 class DotError(Exception):
@@ -34,7 +38,7 @@ def _read_id(s, i):
                 out.append(ch)
                 i += 1
     j = i
-    while j < len(s) and not s[j].isspace() and s[j] not in '[]=':
+    while j < len(s) and not s[j].isspace() and s[j] not in '[]=,;':
         j += 1
     if j == i:
         raise DotError(f'identifier expected at {i} in {s!r}')
@@ -47,8 +51,14 @@ def _skip(s, i):
     return i
 
 
+def is_blank_or_comment(line):
+    t = line.strip()
+    return (not t or t.startswith('//') or t.startswith('#')
+            or (t.startswith('/*') and t.endswith('*/') and t.count('*/') == 1))
+
+
 def parse_statement(line):
-    """Return ('node', name, attrs) or ('edge', (tail, head), attrs)."""
+    """Return ('node', name, attrs), ('edge', (tail, head), attrs) or ('default', keyword, attrs)."""
     s = line.rstrip('\n')
     if '\n' in s:
         raise DotError('statement spans lines')
@@ -62,12 +72,14 @@ def parse_statement(line):
         i = _skip(s, i)
         kind, what = 'edge', (a, b)
     attrs = {}
-    if i < len(s) and s[i] == '[':
+    while i < len(s) and s[i] == '[':
         i += 1
         while True:
             i = _skip(s, i)
+            while i < len(s) and s[i] in ',;':
+                i = _skip(s, i + 1)
             if i < len(s) and s[i] == ']':
-                i += 1
+                i = _skip(s, i + 1)
                 break
             k, i = _read_id(s, i)
             if i >= len(s) or s[i] != '=':
@@ -78,10 +90,25 @@ def parse_statement(line):
                 raise DotError(f'duplicate attribute {k}')
             attrs[k] = QStr(v) if quoted else v
     i = _skip(s, i)
+    if i < len(s) and s[i] == ';':
+        i = _skip(s, i + 1)
     if i != len(s):
         raise DotError(f'trailing text {s[i:]!r}')
+    if kind == 'node' and what in ('node', 'edge', 'graph') and not line.lstrip().startswith('"'):
+        if any(k in ORACLE_KEYS for k in attrs):
+            raise DotError(f'default statement sets attributes the oracle reads: {s!r}')
+        return 'default', what, attrs
     return kind, what, attrs
 
 
 def parse_body(body):
-    return [parse_statement(line) for line in body]
+    """Node and edge statements of the body lines (blank lines, comments and harmless defaults dropped)."""
+    out = []
+    for line in body:
+        for part in line.splitlines() or ['']:
+            if is_blank_or_comment(part):
+                continue
+            st = parse_statement(part)
+            if st[0] != 'default':
+                out.append(st)
+    return out
